@@ -96,7 +96,7 @@ def _c12_rows(fx, np, pid, t, strings, rng=None, full=True):
     for spelling, st, cplx in strings:
         if not st:
             continue
-        for route in ('ctor', 'resize', 'ctor-val', 'resize-same'):
+        for route in ('ctor', 'resize', 'ctor-val', 'resize-same', 'ctor-like', 'ctor-template', 'ctor-template-kw'):
             if cplx and t[1] > 52:
                 continue
             out.append(x_text.observe_dtype_parse(fx, np, [pid], t, cplx, st, spelling, route))
